@@ -81,18 +81,11 @@ theorem C14_tensor_counts (b : Branch) (h : b.OkLin) (T N d1 d2 : ℕ) (A : Seri
   have h' : ({ b with countPerParticle := !b.countPerParticle } : Branch).OkLin := h
   rw [C14_linear b h, C14_linear _ h']
 
-/-- … and the regenerated tensor branch does increment per particle: its `counts[k]` is `N·(T − k)` -/
-theorem C14_tensor_counts_value (T N : ℕ) (k : ℕ) :
-    ∃ b, Pms.Gen.TimeCorr.program.select 4 true = some b ∧ b.countPerParticle = true ∧
-      b.loops (α := K) T (b.countStep N) k = ((T - k : ℕ) : K) * (N : K) := by
-  refine ⟨_, rfl, rfl, ?_⟩
-  unfold Branch.loops Branch.countStep
-  simp only [if_true, Idx.eval]
-  have : (fun (c : ℕ → K) (n : ℕ) => foldRange (n + 1) (fun acc nn => foldRange N (fun c _ => upd c nn 1) acc) c)
-      = fun c n => foldRange (n + 1) (fun acc nn => upd acc nn (N : K)) c := by
-    funext c n; congr 1; funext acc nn; rw [fold_upd_same]; simp
-  rw [this]
-  exact count_loop T (N : K) k
+/-- `counts[k]` of an origin-averaging branch is the number of origins `T − k`, times `N` when the increment sits in the
+particle loop (the tensor branch) -/
+theorem C14_tensor_counts_value (b : Branch) (h : b.OkLin) (T N : ℕ) (k : ℕ) :
+    b.loops (α := K) T (b.countStep N) k = ((T - k : ℕ) : K) * (if b.countPerParticle then (N : K) else 1) :=
+  counts_lin b h T N k
 
 /-- which factor carries the conjugate does not matter for the real part … -/
 theorem C14_conj_symmetry (x y : Cx K) : (Cx.mul x y.conj).re = (Cx.mul x.conj y).re := by
